@@ -15,6 +15,11 @@ How the pieces fit:
     well-typed claims of ANY two submittable types with the same attestation key are the same claim — same
     type, same value of every hashed field — unless the hash collides on exactly their two pre-images; hence
     whatever applying a claim does (any function of type and hashed fields) is the same for both.
+  * `flatKey_injective` / `votes_pooled_only_for_identical_claim_and_chain` (the chain clause): the chain id is not
+    hashed; it is the variable-length prefix of the key in the module's one flat store. The fixed-length tail
+    makes the concatenation unambiguous, and over ANY history of submissions to `attest` (the model of
+    `Keeper.Attest`, chain ids varying freely) a vote is pooled only with a stored body of the same chain id, type
+    and hashed fields.
 `Props/C02.lean` imports this file and lifts the last statement to oracle histories
 (`honest_votes_counted_only_for_identical_claim`).
 External ASSUMPTION, always stated pointwise: the hash does not collide on the two pre-images in question.
@@ -326,6 +331,123 @@ theorem shapeOfVerbs_length : ∀ (vs : List String) (ks : List Kind), shapeOfVe
         simp only [hk, hs, Option.some.injEq] at h
         subst h
         simp [shapeOfVerbs_length vs ks' hs]
+
+theorem be8_inj {a b : Nat} (ha : a < 18446744073709551616) (hb : b < 18446744073709551616)
+    (h : be8 a = be8 b) : a = b := by
+  simp only [be8, List.cons.injEq, and_true] at h
+  omega
+
+theorem be8_length (n : Nat) : (be8 n).length = 8 := by simp [be8]
+
+theorem lookup_some {k : List Nat} : ∀ {l : List KAtt} {b : KAtt}, lookup k l = some b → b ∈ l ∧ b.key = k
+  | [], _, h => by simp [lookup] at h
+  | c :: cs, b, h => by
+    simp only [lookup] at h
+    split at h
+    · rename_i hk
+      have : c = b := by simpa using h
+      subst this
+      exact ⟨by simp, hk⟩
+    · have := lookup_some (l := cs) h
+      exact ⟨List.mem_cons_of_mem _ this.1, this.2⟩
+
+theorem mem_upsert {a x : KAtt} : ∀ {l : List KAtt}, x ∈ upsert a l → x = a ∨ x ∈ l
+  | [], h => by simp [upsert] at h; exact Or.inl h
+  | c :: cs, h => by
+    simp only [upsert] at h
+    split at h
+    · rcases List.mem_cons.mp h with h | h
+      · exact Or.inl h
+      · exact Or.inr (List.mem_cons_of_mem _ h)
+    · rcases List.mem_cons.mp h with h | h
+      · exact Or.inr (by rw [h]; simp)
+      · rcases mem_upsert (l := cs) h with h | h
+        · exact Or.inl h
+        · exact Or.inr (List.mem_cons_of_mem _ h)
+
+theorem mem_addVote {votes : List Nat} {v x : Nat} (h : x ∈ addVote votes v) : x ∈ votes ∨ x = v := by
+  unfold addVote at h
+  split at h
+  · exact Or.inl h
+  · rcases List.mem_append.mp h with h | h
+    · exact Or.inl h
+    · exact Or.inr (by simpa using h)
+
+/-- the invariant of the attestation store: every attestation's body (chain id, type, hashed fields) is an
+accepted vote's claim and the attestation lives under THAT claim's key; every pooled vote belongs to an
+accepted vote whose key is the attestation's key -/
+def KInv (H : List Nat → List Nat) (s : KState) : Prop :=
+  ∀ a ∈ s.atts,
+    (∃ o ∈ s.log, a.bodyChain = o.chain ∧ a.bodyTy = o.ty ∧ a.body = o.fields ∧ a.key = keyOf H o) ∧
+    ∀ v ∈ a.votes, ∃ o ∈ s.log, o.val = v ∧ keyOf H o = a.key
+
+theorem attest_log (H : List Nat → List Nat) (s : KState) (v o : KVote) (h : o ∈ (attest H s v).1.log) :
+    o = v ∨ o ∈ s.log := by
+  unfold attest at h
+  split at h
+  · exact Or.inr h
+  · split at h
+    · exact List.mem_cons.mp h
+    · split at h
+      · exact Or.inr h
+      · exact List.mem_cons.mp h
+
+theorem attest_inv (H : List Nat → List Nat) (s : KState) (v : KVote) (hs : KInv H s) : KInv H (attest H s v).1 := by
+  unfold attest
+  split
+  · exact hs
+  · split
+    · -- a new attestation, body = the submitted claim
+      intro x hx
+      rcases mem_upsert hx with hx | hx
+      · subst hx
+        refine ⟨⟨v, by simp, rfl, rfl, rfl, rfl⟩, ?_⟩
+        intro w hw
+        have : w = v.val := by simpa using hw
+        exact ⟨v, by simp, this.symm, rfl⟩
+      · obtain ⟨⟨o, ho, hb⟩, hv⟩ := hs x hx
+        refine ⟨⟨o, List.mem_cons_of_mem _ ho, hb⟩, ?_⟩
+        intro w hw
+        obtain ⟨o', ho', h'⟩ := hv w hw
+        exact ⟨o', List.mem_cons_of_mem _ ho', h'⟩
+    · rename_i a hl
+      split
+      · exact hs
+      · -- the vote joins the attestation found under its key
+        have ha := lookup_some hl
+        intro x hx
+        rcases mem_upsert hx with hx | hx
+        · subst hx
+          obtain ⟨⟨o, ho, hb⟩, hv⟩ := hs a ha.1
+          refine ⟨⟨o, List.mem_cons_of_mem _ ho, hb⟩, ?_⟩
+          intro w hw
+          rcases mem_addVote hw with hw | hw
+          · obtain ⟨o', ho', h'⟩ := hv w hw
+            exact ⟨o', List.mem_cons_of_mem _ ho', h'⟩
+          · exact ⟨v, by simp, hw.symm, ha.2.symm⟩
+        · obtain ⟨⟨o, ho, hb⟩, hv⟩ := hs x hx
+          refine ⟨⟨o, List.mem_cons_of_mem _ ho, hb⟩, ?_⟩
+          intro w hw
+          obtain ⟨o', ho', h'⟩ := hv w hw
+          exact ⟨o', List.mem_cons_of_mem _ ho', h'⟩
+
+theorem runVotes_inv (H : List Nat → List Nat) : ∀ (ops : List KVote) (s : KState), KInv H s →
+    KInv H (runVotes H s ops).1
+  | [], s, hs => by simpa [runVotes] using hs
+  | v :: vs, s, hs => by
+    simp only [runVotes]
+    exact runVotes_inv H vs _ (attest_inv H s v hs)
+
+theorem runVotes_log (H : List Nat → List Nat) : ∀ (ops : List KVote) (s : KState) (o : KVote),
+    o ∈ (runVotes H s ops).1.log → o ∈ ops ∨ o ∈ s.log
+  | [], s, o, h => by simp only [runVotes] at h; exact Or.inr h
+  | v :: vs, s, o, h => by
+    simp only [runVotes] at h
+    rcases runVotes_log H vs _ o h with h | h
+    · exact Or.inl (List.mem_cons_of_mem _ h)
+    · rcases attest_log H s v o h with h | h
+      · exact Or.inl (by rw [h]; simp)
+      · exact Or.inr h
 
 end Lemmas
 
@@ -698,6 +820,85 @@ theorem same_attestation_key_same_effect {α : Type} (H : List Nat → Nat) (eff
   subst this; subst h1
   exact ⟨rfl, h2, rfl, rfl⟩
 
+/-! ### the chain clause: the key in the flat store, and the attestation store over whole histories -/
+
+/-- **flatKey_injective** (the chain clause at byte level). The module has ONE flat store; the chain id is a
+variable-length prefix glued in front of `OracleAttestationKey ++ nonce ++ hash`. Because that tail has a fixed
+length (16 + 8 + digest size) the concatenation is unambiguous: two attestation keys are the same bytes only
+for the same chain id — byte for byte, nothing trimmed, folded or normalised —, the same nonce and the same
+hash. (uint64 nonces; a digest of fixed size.) -/
+theorem flatKey_injective (chain chain' : List Nat) (n n' : Nat) (h h' : List Nat)
+    (hn : n < 18446744073709551616) (hn' : n' < 18446744073709551616) (hl : h.length = h'.length)
+    (hk : flatKey chain n h = flatKey chain' n' h') : chain = chain' ∧ n = n' ∧ h = h' := by
+  unfold flatKey at hk
+  have hlen := congrArg List.length hk
+  simp only [List.length_append, be8_length] at hlen
+  have h1 := List.append_inj hk (by omega)
+  have h2 := List.append_cancel_left h1.2
+  have h3 := List.append_inj h2 (by simp [be8_length])
+  exact ⟨h1.1, be8_inj hn hn' h3.1, h3.2⟩
+
+/-- **different_chain_different_key**: the contrapositive for the chain alone, no hypothesis on the hash values
+other than their common size: the same claim (or any two claims) on two chain ids that differ in any byte —
+surrounding white space, letter case, a trailing NUL included — never share an attestation key. -/
+theorem different_chain_different_key (chain chain' : List Nat) (n n' : Nat) (h h' : List Nat)
+    (hl : h.length = h'.length) (hne : chain ≠ chain') : flatKey chain n h ≠ flatKey chain' n' h' := by
+  intro hk
+  unfold flatKey at hk
+  have hlen := congrArg List.length hk
+  simp only [List.length_append, be8_length] at hlen
+  exact hne (List.append_inj hk (by omega)).1
+
+/-- **votes_pooled_only_for_identical_claim_and_chain** (both sentences of the property over whole histories
+of the attestation store, the chain included). Run ANY sequence of claim submissions — any validators, any
+chain ids, any claim types and field values, any order, accepted or rejected — through `Attest`. In the
+resulting store, every validator whose vote is pooled in an attestation had a vote ACCEPTED (`log`) for a
+claim that agrees with the body stored in that attestation — the body that will be executed — in the chain id,
+the claim type and every hashed field. ASSUMPTIONS, named and pointwise: the digest has a fixed size (`hlen`),
+nonces are uint64, the submitted claims are well-typed claims of the current source, and the hash does not
+collide on the pre-images of the claims of this history (`hnc`). -/
+theorem votes_pooled_only_for_identical_claim_and_chain (H : List Nat → List Nat) (ops : List KVote)
+    (hlen : ∀ x y, (H x).length = (H y).length)
+    (hnonce : ∀ o ∈ ops, o.nonce < 18446744073709551616)
+    (hwt : ∀ o ∈ ops, Claim.wellTyped ⟨o.ty, o.fields⟩ = true)
+    (hnc : ∀ o ∈ ops, ∀ o' ∈ ops, H (preimage o.fields) = H (preimage o'.fields) →
+      preimage o.fields = preimage o'.fields) :
+    ∀ a ∈ (runVotes H KState.init ops).1.atts, ∀ v ∈ a.votes,
+      ∃ o ∈ (runVotes H KState.init ops).1.log, o ∈ ops ∧ o.val = v ∧
+        o.chain = a.bodyChain ∧ o.ty = a.bodyTy ∧ o.fields = a.body := by
+  intro a ha v hv
+  have hinv := runVotes_inv H ops KState.init (by intro a ha; simp [KState.init] at ha)
+  have hlog : ∀ o ∈ (runVotes H KState.init ops).1.log, o ∈ ops := by
+    intro o ho
+    rcases runVotes_log H ops KState.init o ho with h | h
+    · exact h
+    · simp [KState.init] at h
+  obtain ⟨⟨b, hb, hbc, hbt, hbf, hbk⟩, hvotes⟩ := hinv a ha
+  obtain ⟨o, ho, hov, hok⟩ := hvotes v hv
+  refine ⟨o, ho, hlog o ho, hov, ?_⟩
+  have hkk : keyOf H o = keyOf H b := by rw [hok, hbk]
+  unfold keyOf at hkk
+  have hinj := flatKey_injective _ _ _ _ _ _ (hnonce o (hlog o ho)) (hnonce b (hlog b hb)) (hlen _ _) hkk
+  have hcl := same_key_same_claim (fun x => (H x).foldl (fun acc d => acc * 256 + d) 0) ⟨o.ty, o.fields⟩ ⟨b.ty, b.fields⟩
+    (hwt o (hlog o ho)) (hwt b (hlog b hb)) (fun _ => hnc o (hlog o ho) b (hlog b hb) hinj.2.2)
+    (by simp only [hinj.2.2])
+  simp only [Claim.mk.injEq] at hcl
+  exact ⟨by rw [hbc, hinj.1], by rw [hbt, hcl.1], by rw [hbf, hcl.2]⟩
+
+/-- **cursor_is_per_chain**: the "last nonce voted" cursor the contiguity check of `Attest` reads belongs to
+(chain id, validator): a submission for another chain id or by another validator never changes it. -/
+theorem cursor_is_per_chain (H : List Nat → List Nat) (s : KState) (v : KVote) (chain : List Nat) (val : Nat)
+    (hne : ¬ (v.chain = chain ∧ v.val = val)) :
+    cursorOf (attest H s v).1.cursor chain val = cursorOf s.cursor chain val := by
+  unfold attest
+  split
+  · rfl
+  · split
+    · simp only [cursorOf, hne, if_false]
+    · split
+      · rfl
+      · simp only [cursorOf, hne, if_false]
+
 /-! ### non-vacuity -/
 /-- outside the property's scope, for the record: the legacy `MsgBatchSendToEthClaim` renders its token
 contract with a raw `%s`; with the (never validated, genesis-only) token string "aa/01" its four-part
@@ -729,5 +930,21 @@ example : preimage [.num 7, .num 100, .str [48, 120], .amt 25, .str []] =
 example : sameShape [.num 1, .amt 5, .str [1]] [.num 2, .nilAmt, .str []] = true := by decide
 /-- `claim_types_never_pool` speaks about three real rows -/
 example : arities = [("MsgBatchSendToRemoteClaim", 5), ("MsgLightNodeSaleClaim", 6), ("MsgSendToPalomaClaim", 7)] := by decide
+
+/-- the attestation store on a history over two chain ids that differ in a trailing blank ("a " = [97, 32] and
+"a" = [97]): validator 1 reports a claim for "a " first, validators 2 and 3 report the otherwise identical claim
+for "a". Two attestations; the votes of 2 and 3 are pooled with each other and not with 1's; a second vote of
+1 for "a " at the same nonce is refused while its first vote for "a" is accepted (cursors are per chain). The
+constant digest is collision free on this history because all four claims have the same hashed fields. -/
+example :
+    (runVotes (fun _ => []) KState.init
+      [⟨1, [97, 32], "MsgBatchSendToRemoteClaim", [.num 1, .num 100, .num 3, .str [1], .str [99]]⟩,
+       ⟨2, [97], "MsgBatchSendToRemoteClaim", [.num 1, .num 100, .num 3, .str [1], .str [99]]⟩,
+       ⟨3, [97], "MsgBatchSendToRemoteClaim", [.num 1, .num 100, .num 3, .str [1], .str [99]]⟩,
+       ⟨1, [97, 32], "MsgBatchSendToRemoteClaim", [.num 1, .num 100, .num 3, .str [1], .str [99]]⟩,
+       ⟨1, [97], "MsgBatchSendToRemoteClaim", [.num 1, .num 100, .num 3, .str [1], .str [99]]⟩]).2 =
+    [.ok true 1, .ok true 1, .ok false 2, .rejected, .ok false 3] := by decide
+example : flatKey [97] 1 [7] = [97, 11, 250, 22, 95, 244, 239, 85, 139, 61, 11, 98, 234, 77, 74, 70, 197, 0, 0, 0, 0, 0, 0, 0, 1, 7] := by decide
+example : flatKey [97, 32] 1 [7] ≠ flatKey [97] 1 [7] := by decide
 
 end Paloma.ClaimHash
